@@ -299,13 +299,19 @@ def _mp_tile_worker(queue, done_event, pio, reproject_function, kwargs):
     invert_into_tiles = pio.get_default_vertical_parity_sign() == 1
 
     while True:
+        # Sample the "done" flag *before* polling the queue. It is only raised once
+        # every item has been flushed to the queue, so an empty poll that started
+        # after that is conclusive. Checking the flag after the poll is racy: items
+        # can arrive, and the flag be raised, between the timeout and the check.
+        done = done_event.is_set()
+
         try:
             # un-pickling WCS objects always triggers warnings right now
             with warnings.catch_warnings():
                 warnings.simplefilter("ignore")
                 image, desc, combined_wcs = queue.get(True, timeout=10)
         except Empty:
-            if done_event.is_set():
+            if done:
                 break
             continue
 
